@@ -101,6 +101,7 @@ type assertions struct {
 	Issuers   []string
 	Audiences []string
 	Scopes    []string
+	Strategy  string // scope matching strategy: "" (exact), "exact", "hierarchic", "wildcard"
 	Algs      []string
 	Leeway    int // seconds, 0 = unset
 }
@@ -116,7 +117,11 @@ func (a assertions) config() map[string]any {
 	}
 
 	if len(a.Scopes) != 0 {
-		m["scopes"] = toAny(a.Scopes)
+		if a.Strategy == "" {
+			m["scopes"] = toAny(a.Scopes)
+		} else {
+			m["scopes"] = map[string]any{"matching_strategy": a.Strategy, "values": toAny(a.Scopes)}
+		}
 	}
 
 	if len(a.Algs) != 0 {
@@ -151,6 +156,7 @@ func merge(over, proto assertions) assertions {
 
 	if len(over.Scopes) != 0 {
 		e.Scopes = over.Scopes
+		e.Strategy = over.Strategy
 	}
 
 	if len(over.Algs) != 0 {
@@ -169,7 +175,7 @@ var (
 	allAlgs     = []string{"ES256", "ES384", "ES512", "PS256", "PS384", "PS512", "RS256", "RS384", "RS512", "EdDSA", "HS256", "HS384", "HS512"}
 	issuers     = []string{"https://issuer.example.com", "https://other-issuer.example.com", "https://evil.example.com"}
 	audiences   = []string{"api", "web", "admin"}
-	scopeNames  = []string{"read", "write", "admin"}
+	scopeNames  = []string{"read", "write", "admin", "picture.read", "picture.write", "svc.orders.eu", "administrator"}
 )
 
 func genAssertions(t *rapid.T, proto bool) assertions {
@@ -188,6 +194,7 @@ func genAssertions(t *rapid.T, proto bool) assertions {
 
 	if rapid.IntRange(0, 2).Draw(t, "withScopes") == 0 {
 		a.Scopes = rapid.SliceOfNDistinct(rapid.SampledFrom(scopeNames), 1, 2, rapid.ID[string]).Draw(t, "scopes")
+		a.Strategy = rapid.SampledFrom([]string{"", "", "exact", "hierarchic", "hierarchic", "wildcard"}).Draw(t, "scopeStrategy")
 	}
 
 	switch rapid.IntRange(0, 3).Draw(t, "algsKind") {
@@ -245,8 +252,102 @@ func sign(header, claims map[string]any, key any) string {
 	return tok
 }
 
+// grantFor returns a granted scope satisfying the required one under the strategy.
+func grantFor(t *rapid.T, req, strategy string) string {
+	segs := strings.Split(req, ".")
+
+	switch strategy {
+	case "hierarchic":
+		// the scope itself or one of its ancestors
+		return strings.Join(segs[:rapid.IntRange(1, len(segs)).Draw(t, "grantDepth")], ".")
+	case "wildcard":
+		switch rapid.IntRange(0, 3).Draw(t, "grantForm") {
+		case 0:
+			return req
+		case 1:
+			return "*"
+		case 2:
+			// a prefix followed by a wildcard
+			k := rapid.IntRange(0, len(segs)-1).Draw(t, "wildcardAt")
+
+			return strings.Join(append(append([]string{}, segs[:k]...), "*"), ".")
+		default:
+			// one segment replaced by a wildcard
+			c := append([]string{}, segs...)
+			c[rapid.IntRange(0, len(segs)-1).Draw(t, "wildcardSeg")] = "*"
+
+			return strings.Join(c, ".")
+		}
+	default:
+		return req
+	}
+}
+
+func setScopes(t *rapid.T, tk *token, granted []string) {
+	delete(tk.Claims, "scp")
+	delete(tk.Claims, "scope")
+
+	switch rapid.IntRange(0, 2).Draw(t, "scopeForm") {
+	case 0:
+		tk.Claims["scp"] = toAny(append(append([]string{}, granted...), "extra"))
+	case 1:
+		tk.Claims["scope"] = strings.Join(granted, " ")
+	default:
+		tk.Claims["scp"] = strings.Join(granted, " ")
+	}
+}
+
+// scopeIncludes is the reference of the three documented matching strategies: does the granted scope satisfy the
+// required one? exact: equality. hierarchic: the granted scope is the required one or one of its ancestors in the
+// "."-separated hierarchy ("picture" includes "picture.read", but "pic" and "picture." do not). wildcard: the granted
+// scope is a pattern whose "*" segments stand for one non-empty segment each, a trailing "*" for all remaining ones.
+func scopeIncludes(strategy, granted, required string) bool {
+	g, r := strings.Split(granted, "."), strings.Split(required, ".")
+
+	switch strategy {
+	case "hierarchic":
+		if len(g) > len(r) {
+			return false
+		}
+
+		for i := range g {
+			if g[i] != r[i] {
+				return false
+			}
+		}
+
+		return true
+	case "wildcard":
+		if len(g) > len(r) {
+			return false
+		}
+
+		for i := range g {
+			if !(g[i] == r[i] || g[i] == "*" && r[i] != "") {
+				return false
+			}
+		}
+
+		return len(g) == len(r) || g[len(g)-1] == "*"
+	default:
+		return granted == required
+	}
+}
+
+var fullCatalogue = []string{
+	"sig-flip", "sig-truncate", "sig-empty", "alg-none", "alg-hs-pem", "alg-hs-der", "alg-hs-jwk", "alg-other",
+	"kid-other", "kid-remove", "kid-unknown", "iss-untrusted", "iss-missing", "aud-wrong", "aud-missing", "scope-missing",
+	"scope-char-prefix", "scope-child", "scope-sibling", "scope-dot-prefix", "scope-char-suffix", "scope-ancestor", "scope-one-missing",
+	"exp-far-past", "exp-just-past", "exp-inside-leeway", "exp-zero", "exp-negative", "exp-string", "exp-huge", "exp-missing",
+	"nbf-future", "nbf-inside-leeway", "iat-future", "resign-other-key", "two-parts", "four-parts", "payload-edit-unsigned",
+	"header-edit-unsigned", "sub-swap-unsigned",
+}
+
+var scopeCatalogue = []string{"scope-missing", "scope-char-prefix", "scope-child", "scope-sibling", "scope-dot-prefix", "scope-char-suffix",
+	"scope-ancestor", "scope-one-missing"}
+
 // genToken builds a valid token for one key of the set and then applies 0-2 mutations.
-func genToken(t *rapid.T, set []keyEntry, eff assertions, now int64) token {
+func genToken(t *rapid.T, set []keyEntry, eff assertions, now int64, catalogue []string) token {
 	tk := token{KeyIdx: rapid.IntRange(0, len(set)-1).Draw(t, "signKey")}
 	e := set[tk.KeyIdx]
 
@@ -279,14 +380,14 @@ func genToken(t *rapid.T, set []keyEntry, eff assertions, now int64) token {
 	}
 
 	if len(eff.Scopes) != 0 {
-		switch rapid.IntRange(0, 2).Draw(t, "scopeForm") {
-		case 0:
-			tk.Claims["scp"] = toAny(append(append([]string{}, eff.Scopes...), "extra"))
-		case 1:
-			tk.Claims["scope"] = strings.Join(eff.Scopes, " ")
-		default:
-			tk.Claims["scp"] = strings.Join(eff.Scopes, " ")
+		// granted scopes which satisfy the requirement under the configured strategy: the scope itself, or - for the
+		// hierarchic and wildcard strategies - a scope that includes it
+		granted := make([]string, 0, len(eff.Scopes))
+		for _, req := range eff.Scopes {
+			granted = append(granted, grantFor(t, req, eff.Strategy))
 		}
+
+		setScopes(t, &tk, granted)
 	}
 
 	signKey := e.priv
@@ -301,13 +402,7 @@ func genToken(t *rapid.T, set []keyEntry, eff assertions, now int64) token {
 	var post []func(string) string // byte-level mutations applied after signing
 
 	for i := 0; i < nm; i++ {
-		m := rapid.SampledFrom([]string{
-			"sig-flip", "sig-truncate", "sig-empty", "alg-none", "alg-hs-pem", "alg-hs-der", "alg-hs-jwk", "alg-other",
-			"kid-other", "kid-remove", "kid-unknown", "iss-untrusted", "iss-missing", "aud-wrong", "aud-missing", "scope-missing",
-			"exp-far-past", "exp-just-past", "exp-inside-leeway", "exp-zero", "exp-negative", "exp-string", "exp-huge", "exp-missing",
-			"nbf-future", "nbf-inside-leeway", "iat-future", "resign-other-key", "two-parts", "four-parts", "payload-edit-unsigned",
-			"header-edit-unsigned", "sub-swap-unsigned",
-		}).Draw(t, "mutation")
+		m := rapid.SampledFrom(catalogue).Draw(t, "mutation")
 		tk.Muts = append(tk.Muts, m)
 
 		switch m {
@@ -397,6 +492,39 @@ func genToken(t *rapid.T, set []keyEntry, eff assertions, now int64) token {
 		case "scope-missing":
 			delete(tk.Claims, "scp")
 			tk.Claims["scope"] = "unrelated"
+		case "scope-char-prefix", "scope-child", "scope-sibling", "scope-dot-prefix", "scope-char-suffix", "scope-ancestor", "scope-one-missing":
+			// near misses of the required scopes; whether the token is still acceptable is decided by the reference matcher
+			if len(eff.Scopes) == 0 {
+				break
+			}
+
+			granted := make([]string, 0, len(eff.Scopes))
+
+			for i, req := range eff.Scopes {
+				segs := strings.Split(req, ".")
+
+				switch m {
+				case "scope-char-prefix":
+					granted = append(granted, req[:1+rapid.IntRange(0, len(req)-2).Draw(t, "cut")])
+				case "scope-child":
+					granted = append(granted, req+".x")
+				case "scope-sibling":
+					segs[len(segs)-1] = "other"
+					granted = append(granted, strings.Join(segs, "."))
+				case "scope-dot-prefix":
+					granted = append(granted, segs[0]+".")
+				case "scope-char-suffix":
+					granted = append(granted, req+"x", "x"+req)
+				case "scope-ancestor":
+					granted = append(granted, segs[0])
+				case "scope-one-missing":
+					if i != 0 {
+						granted = append(granted, req)
+					}
+				}
+			}
+
+			setScopes(t, &tk, granted)
 		case "exp-far-past":
 			tk.Claims["exp"] = now - 3600
 		case "exp-just-past":
@@ -628,7 +756,7 @@ func referenceVerify(raw string, set []keyEntry, eff assertions, now int64) verd
 		for _, req := range eff.Scopes {
 			found := false
 			for _, h := range have {
-				found = found || h == req
+				found = found || scopeIncludes(eff.Strategy, h, req)
 			}
 
 			if !found {
@@ -758,12 +886,29 @@ func describeSet(set []keyEntry) string {
 }
 
 func TestOnlyValidTokensYieldSubjects(t *testing.T) {
+	checkTokens(t, false)
+}
+
+// TestRequiredScopesAreMatched concentrates on the scope assertion: scopes are always required (in the prototype or in
+// the rule-level override) under one of the three matching strategies, and the only mutations are near misses of the
+// required scopes.
+func TestRequiredScopesAreMatched(t *testing.T) {
+	checkTokens(t, true)
+}
+
+func genScopes(t *rapid.T, a *assertions) {
+	a.Scopes = rapid.SliceOfNDistinct(rapid.SampledFrom(scopeNames), 1, 2, rapid.ID[string]).Draw(t, "scopes")
+	a.Strategy = rapid.SampledFrom([]string{"", "exact", "hierarchic", "hierarchic", "wildcard", "wildcard"}).Draw(t, "scopeStrategy")
+}
+
+func checkTokens(t *testing.T, scopeFocus bool) {
 	exclExp := vkit.Known(kfExpNonPositive, expZeroAccepted)
 
 	rapid.Check(t, func(t *rapid.T) {
 		set := genKeySet(t)
 		proto := genAssertions(t, true)
 		useOverride := rapid.IntRange(0, 2).Draw(t, "useOverride") == 0
+		catalogue := fullCatalogue
 
 		var over assertions
 
@@ -771,11 +916,26 @@ func TestOnlyValidTokensYieldSubjects(t *testing.T) {
 
 		if useOverride {
 			over = genAssertions(t, false)
+		}
+
+		if scopeFocus {
+			catalogue = scopeCatalogue
+
+			if useOverride && rapid.Bool().Draw(t, "scopesInOverride") {
+				genScopes(t, &over)
+			} else if len(proto.Scopes) == 0 {
+				genScopes(t, &proto)
+			}
+		}
+
+		if useOverride {
 			eff = merge(over, proto)
+		} else {
+			eff = proto
 		}
 
 		now := time.Now().Unix()
-		tk := genToken(t, set, eff, now)
+		tk := genToken(t, set, eff, now, catalogue)
 
 		if exclExp {
 			if exp, ok := tk.Claims["exp"]; ok {
@@ -797,6 +957,8 @@ func TestOnlyValidTokensYieldSubjects(t *testing.T) {
 		vkit.S.Eval()
 		vkit.S.Label(fmt.Sprintf("reference_accepts=%v", ref.Accept))
 		vkit.S.Label(fmt.Sprintf("mutations=%d", len(tk.Muts)))
+		vkit.S.LabelIf(len(eff.Scopes) != 0, "scopes.strategy="+eff.Strategy)
+		vkit.S.LabelIf(len(eff.Scopes) != 0 && strings.HasPrefix(ref.Reason, "scope "), "scopes.reference_rejects_for_scope:"+eff.Strategy)
 		vkit.S.LabelIf(ref.Accept && status == 200, "converse:accepted_by_both")
 		vkit.S.LabelIf(ref.Accept && status != 200 && !ref.DontCare, "converse:reference_accepts_heimdall_rejects")
 
@@ -856,7 +1018,7 @@ func sameJSON(a, b map[string]any) bool {
 }
 
 var (
-	_ crypto.Signer      = (*ecdsa.PrivateKey)(nil)
-	_ ed25519.PublicKey  = nil
-	_ *rsa.PublicKey     = nil
+	_ crypto.Signer     = (*ecdsa.PrivateKey)(nil)
+	_ ed25519.PublicKey = nil
+	_ *rsa.PublicKey    = nil
 )
